@@ -23,6 +23,35 @@ func reg(name string, f intrinsicFn) { intrinsics[name] = f }
 
 func (e *Engine) findIntrinsic(fn *ssa.Function) intrinsicFn {
 	name := fn.String()
+	if e.cfg.Havoc[name] {
+		// over-approximating stub: every scalar result is a fresh
+		// unconstrained value at every call
+		return func(e *Engine, caller *frame, fn *ssa.Function, args []value) value {
+			res := fn.Signature.Results()
+			mk := func(t types.Type) value {
+				b, ok := t.Underlying().(*types.Basic)
+				if !ok {
+					panic(engineError{"havoc: non-scalar result of " + fn.String()})
+				}
+				w, _, ok := intWidth(b)
+				if !ok {
+					panic(engineError{"havoc: non-integer result of " + fn.String()})
+				}
+				return e.freshVar("havoc", w)
+			}
+			switch res.Len() {
+			case 0:
+				return nil
+			case 1:
+				return mk(res.At(0).Type())
+			}
+			t := make(Tuple, res.Len())
+			for i := range t {
+				t[i] = mk(res.At(i).Type())
+			}
+			return t
+		}
+	}
 	if f, ok := intrinsics[name]; ok {
 		return f
 	}
